@@ -23,7 +23,7 @@ STUBS = C01.STUBS + ["cos/sin of a symbolic angle -> cosd/sind (uninterpreted) +
 ASSUMPTIONS = ["floats as reals (rounding of np.radians/cos/sin outside the claim)"]
 OUTSIDE = ["rounding of trigonometric functions", "more than 3 samples / 2 azimuths"]
 BOUNDS = {"quick": {"samples": "2-3", "azimuths": 2, "n_fft": 4}, "thorough": {"samples": "2-4", "azimuths": "2-3", "n_fft": [4, 8]}}
-INSTANCE_TIMEOUT = {"quick": 230, "thorough": 1500}
+INSTANCE_TIMEOUT = {"quick": 230, "thorough": 700}
 DT = 0.5
 
 
